@@ -493,8 +493,29 @@ def rule_p1(repo, res):
                 exprs = [st] + defs
                 uses_dict = any("vars(self)" in norm(x) or "self.__dict__" in norm(x) for x in exprs)
                 if uses_dict:
-                    consts = {c.value for x in exprs for c in ast.walk(x) if isinstance(c, ast.Constant) and isinstance(c.value, str)}
+                    def strval(x):
+                        if isinstance(x, ast.Constant) and isinstance(x.value, str):
+                            return x.value
+                        if isinstance(x, ast.Name):
+                            mc = repo.module_constant(ci.module.name, x.id)
+                            if isinstance(mc, ast.Constant) and isinstance(mc.value, str):
+                                return mc.value
+                        return None
+                    consts = {strval(c) for x in exprs for c in ast.walk(x)} - {None}
                     filtered = mangled in consts and any(isinstance(c, ast.Compare) for x in exprs for c in ast.walk(x))
+                    # or the entry is removed from a copy of the dictionary: state.pop(<name>, ...) / del state[<name>]
+                    copied = any(isinstance(x, ast.Call) and norm(x.func) in ("dict", "copy.copy") or
+                                 (isinstance(x, ast.Call) and isinstance(x.func, ast.Attribute) and x.func.attr == "copy")
+                                 or isinstance(x, (ast.DictComp, ast.Dict)) for x in defs)
+                    for n_ in ast.walk(fn):
+                        if isinstance(n_, ast.Call) and isinstance(n_.func, ast.Attribute) and n_.func.attr == "pop" \
+                                and isinstance(n_.func.value, ast.Name) and n_.func.value.id in names and n_.args \
+                                and strval(n_.args[0]) == mangled and copied:
+                            filtered = True
+                        if isinstance(n_, ast.Delete) and copied and any(
+                                isinstance(t_, ast.Subscript) and isinstance(t_.value, ast.Name) and t_.value.id in names
+                                and strval(t_.slice) == mangled for t_ in n_.targets):
+                            filtered = True
                     state_ok = state_ok and filtered
         res.oblige("P1", f"{CONTAINER}.{m}: the state it returns excludes the item list (attribute '{mangled}')", ok=state_ok)
         if not state_ok:
@@ -642,7 +663,7 @@ def rule_p2(repo, res):
                         f"{CONTAINER}.copy() is no longer type(self)(self): the copy has another class or shares state",
                         where=f"pvl/collections.py:{getattr(fn, 'lineno', '?')}"))
     # the constructor rebuilds both representations from pairs: __init__ creates the list then extend() -> append()
-    init = ci.methods["__init__"]
+    init = repo.full(CONTAINER, "__init__")
     calls = [norm(n.func) for n in ast.walk(init) if isinstance(n, ast.Call)]
     ok = "self.extend" in calls or "self.update" in calls
     res.oblige("P2", f"{CONTAINER}.__init__ fills the container through extend()", ok=ok)
@@ -650,7 +671,7 @@ def rule_p2(repo, res):
         res.add(Finding("P2", f"{CONTAINER}.__init__", "self.extend(*args, **kwargs)",
                         "the constructor no longer fills the container through extend()/append(), the path that keeps "
                         "both representations in step", where=f"pvl/collections.py:{init.lineno}"))
-    ext = ci.methods.get("extend")
+    ext = repo.full(CONTAINER, "extend") if "extend" in ci.methods else None      # private helpers read in place
     if ext is not None:
         app = [n for n in ast.walk(ext) if isinstance(n, ast.Call) and norm(n.func) == "self.append"]
         direct = [n for n in ast.walk(ext) if isinstance(n, ast.Attribute) and n.attr == items]
@@ -774,17 +795,44 @@ def rule_m4(repo, res):
                 if start is not None and norm(start) == "index" and inside and len(inside) == len(ins) and all(
                         len(n.args) == 2 and norm(n.args[0]) == cnt and norm(n.args[1]) == norm(lp.target.elts[1]) for n in inside):
                     ok = True
+    if not ok and ins:
+        # ... or from a zero-based counter added to index: for i, (key, value) in enumerate(<pairs>): items.insert(index + i, (key, value))
+        for lp in [n for n in ast.walk(fn) if isinstance(n, ast.For)]:
+            it = lp.iter
+            if isinstance(it, ast.Call) and norm(it.func) == "enumerate" and len(it.args) == 1 and not it.keywords \
+                    and isinstance(lp.target, ast.Tuple) and len(lp.target.elts) == 2 and isinstance(lp.target.elts[0], ast.Name):
+                cnt = lp.target.elts[0].id
+                inside = [n for n in ast.walk(lp) if n in ins]
+                rebinds = any(isinstance(n, ast.Name) and isinstance(n.ctx, ast.Store) and n.id in ("index", cnt) and n is not lp.target.elts[0]
+                              for n in ast.walk(lp))
+                if inside and len(inside) == len(ins) and not rebinds and all(
+                        len(n.args) == 2 and norm(n.args[0]) in (f"index + {cnt}", f"{cnt} + index")
+                        and norm(n.args[1]) == norm(lp.target.elts[1]) for n in inside):
+                    ok = True
     res.oblige("M4", f"{CONTAINER}.insert places the pairs at index, index + 1, ...", ok=ok)
     if not ok:
         F("insert", "consecutive indices", "insert no longer places the given pairs at consecutive positions starting at index")
+    from . import canon as _canon
     for nm, off in (("insert_after", "index + 1"), ("insert_before", "index")):
-        fn = M.get(nm)
-        if fn is None:
+        if nm not in ci.methods:
             continue
-        ki = any(isinstance(n, ast.Assign) and norm(n.targets[0]) == "index" and norm(n.value) == "self.key_index(key, instance)"
-                 for n in ast.walk(fn))
+        fn = _canon.canon_method(repo, CONTAINER, nm)          # locals read in place: index = self.key_index(..) is substituted
+        ps = [a.arg for a in fn.args.args]
+
+        def is_key_index(e):
+            if not (isinstance(e, ast.Call) and norm(e.func) == "self.key_index"):
+                return False
+            got = [norm(a) for a in e.args] + [norm(k.value) for k in e.keywords]
+            return len(ps) >= 4 and got == [ps[1], ps[3]]
         call = [n for n in ast.walk(fn) if isinstance(n, ast.Call) and norm(n.func) == "self.insert"]
-        ok = ki and bool(call) and all(norm(c.args[0]) == off for c in call if c.args)
+
+        def pos_ok(a):
+            if off == "index":
+                return is_key_index(a)
+            return isinstance(a, ast.BinOp) and isinstance(a.op, ast.Add) and (
+                (is_key_index(a.left) and isinstance(a.right, ast.Constant) and a.right.value == 1) or
+                (is_key_index(a.right) and isinstance(a.left, ast.Constant) and a.left.value == 1))
+        ok = bool(call) and all(c.args and pos_ok(c.args[0]) and len(c.args) == 2 and norm(c.args[1]) == ps[2] for c in call)
         res.oblige("M4", f"{CONTAINER}.{nm} inserts at key_index(key, instance){' + 1' if off != 'index' else ''}", ok=ok)
         if not ok:
             F(nm, off, f"{nm} no longer inserts at `{off}` with index = key_index(key, instance)")
